@@ -120,6 +120,8 @@ func newPkg(pkg *packages.Package, u *Universe) Package {
 		}
 	}
 
+	pkgScope := pkg.Types.Scope()
+
 	for ident := range p.Package.TypesInfo.Defs {
 		switch x := p.Package.TypesInfo.Defs[ident].(type) {
 		case *types.Func:
@@ -144,9 +146,14 @@ func newPkg(pkg *packages.Package, u *Universe) Package {
 				p.funcs[x.Name()] = x
 			}
 		case *types.TypeName:
-			p.types[x.Name()] = x
+			// only package-level, not func-local types or type params
+			if x.Parent() == pkgScope {
+				p.types[x.Name()] = x
+			}
 		case *types.Const:
-			p.constants[x.Name()] = x
+			if x.Parent() == pkgScope {
+				p.constants[x.Name()] = x
+			}
 		}
 	}
 
